@@ -10,7 +10,7 @@ writes, clock advances, cleaner ticks with any set of nodes down, with every pla
 configuration `c`: expiries, node-type or cluster-type Redis, and EVERY dispatch function `c.place : CKey → Nat`
 (any number of nodes, any assignment of keys to nodes; one node = a constant function).
 -/
-import GoZero.C06.Proofs3
+import GoZero.C06.Proofs4
 import GoZero.C06.Flight
 namespace GoZero.C06
 
@@ -174,8 +174,59 @@ theorem ttl_finite_and_in_range (e j : Nat) (hj : j ≤ 1000) (he : 0 < e) :
   rwa [decide_eq_true_eq] at this
 
 /-- the configured expiries are positive after `newOptions` (defaults 7 days / 1 minute). -/
-theorem configured_expiries_positive (exp nf : Nat) :
-    0 < (Cfg.ofOptions exp nf).exp ∧ 0 < (Cfg.ofOptions exp nf).nf := cfg_pos exp nf
+theorem configured_expiries_positive (o : Options) :
+    0 < (Cfg.ofOptions o).exp ∧ 0 < (Cfg.ofOptions o).nf := cfg_pos o
+
+/-- `newOptions` spelled out: an option that is not given, zero or negative falls back to the default (7 days /
+1 minute); a positive one is taken as it is.  (The function itself is tied to the translated source:
+`Tie.tie_newOptionsTail`, `tie_newOptionsHead`.) -/
+theorem newOptions_defaults (o : Options) :
+    (newOptions o).1 = (match o.expiry with
+                        | some e => if e ≤ 0 then 7 * 24 * 3600 * 1000 else e.toNat
+                        | none => 7 * 24 * 3600 * 1000)
+    ∧ (newOptions o).2 = (match o.notFound with
+                          | some n => if n ≤ 0 then 60 * 1000 else n.toNat
+                          | none => 60 * 1000) := by
+  unfold newOptions newOptionsMs defaultExpiryMs defaultNotFoundExpiryMs
+  cases o.expiry <;> cases o.notFound <;> simp
+
+/-- **for every Options value** (option given or not; zero, negative, sub-second, huge) and every jitter draw,
+the TTL written for a row (`Set`, the load path) and the TTL written for the not-found marker are both within
+the property's ±5 % of the effective expiry, rounded up to seconds, and at least one second — never the `0`
+that go-redis turns into a persistent key. -/
+theorem ttl_finite_for_every_options (o : Options) (j : Nat) (hj : j ≤ 1000) :
+    (Spec.ttlLo (Cfg.ofOptions o).exp ≤ ttlSec (Cfg.ofOptions o).exp j ∧ ttlSec (Cfg.ofOptions o).exp j ≤ Spec.ttlHi (Cfg.ofOptions o).exp
+      ∧ 1 ≤ ttlSec (Cfg.ofOptions o).exp j)
+    ∧ (Spec.ttlLo (Cfg.ofOptions o).nf ≤ ttlSec (Cfg.ofOptions o).nf j ∧ ttlSec (Cfg.ofOptions o).nf j ≤ Spec.ttlHi (Cfg.ofOptions o).nf
+      ∧ 1 ≤ ttlSec (Cfg.ofOptions o).nf j) :=
+  ⟨ttl_finite_and_in_range _ j hj (cfg_pos o).1, ttl_finite_and_in_range _ j hj (cfg_pos o).2⟩
+
+/-- **never a persistent key** — for every Options value, every topology (Redis type, dispatch function) and
+every history of operations with every placement of faults: every entry in every node's Redis carries a TTL
+(`ttl = 0` is the model's persistent key: what `SetexCtx(…, 0)` / `SetnxExCtx(…, 0)` leave behind). -/
+theorem no_persistent_key (o : Options) (cl : Bool) (pl : CKey → Nat) (ops : List Op) (hl : ∀ op ∈ ops, OpLegal op) :
+    ∀ k e, (run { Cfg.ofOptions o with cluster := cl, place := pl } St.init ops).cache k = some e → 0 < e.ttl :=
+  run_finite { Cfg.ofOptions o with cluster := cl, place := pl } (cfg_pos o) init_finite ops hl
+
+/-- the not-found path: a miss on an absent row writes the marker `*` with `SET NX EX` and the jittered
+NOT-FOUND expiry (not the row expiry), on the key's node, and returns not-found after one database call. -/
+theorem notfound_placeholder_ttl (c : Cfg) (s : St) (pk j : Nat)
+    (hmiss : s.cache (c.slot (.p pk)) = none) (hr : dbRow s pk = none) :
+    (takeP c s pk j [] false).1.cache (c.slot (.p pk)) = some ⟨.ph, ttlSec c.nf j * 1000, .loaded⟩
+    ∧ (takeP c s pk j [] false).2.res = .notfound ∧ (takeP c s pk j [] false).2.q = 1
+    ∧ (takeP c s pk j [] false).2.cmds = [⟨.get, c.place (.p pk), [.p pk], false⟩, ⟨.setnx, c.place (.p pk), [.p pk], false⟩] := by
+  unfold Cfg.slot at hmiss
+  unfold takeP getCache setnx
+  simp [failAt, hmiss, hr, upd, Cfg.slot]
+
+/-- the same on the index path (`QueryRowIndex` → `TakeWithExpireCtx`): the marker goes under the INDEX key. -/
+theorem notfound_placeholder_ttl_index (c : Cfg) (s : St) (a j : Nat)
+    (hmiss : s.cache (c.slot (.x a)) = none) (hr : dbIndex s a = none) :
+    (qindex c s a j [] false).1.cache (c.slot (.x a)) = some ⟨.ph, ttlSec c.nf j * 1000, .loaded⟩
+    ∧ (qindex c s a j [] false).2.res = .notfound ∧ (qindex c s a j [] false).2.q = 1 := by
+  unfold Cfg.slot at hmiss
+  unfold qindex getCache setnx
+  simp [failAt, hmiss, hr, upd, Cfg.slot]
 
 /-- what a Take writes: only under its own key, a `loaded` entry, the placeholder with the jittered not-found
 expiry or the row with the jittered expiry. -/
@@ -382,6 +433,22 @@ example : (takeP { exp := 20000, nf := 3000 } (run { exp := 20000, nf := 3000 } 
     = { res := .notfound, q := 0, cmds := [⟨.get, 0, [.p 7], false⟩] } := by decide
 
 example : (run { exp := 20000, nf := 3000 } St.init [.take 7 0 [] false]).cache (0, .p 7) = some ⟨.ph, 4000, .loaded⟩ := by decide
+
+/-- option values at the sanity checks' boundary and beyond: 0 and −1 ms fall back to the defaults, 1 ms is kept
+(TTL 1 s for every draw), 999 ms / 1000 ms / 1001 ms give 1 s or 2 s, a year gives a year ± 5 %. -/
+example : newOptions {} = (604800000, 60000) ∧ newOptions { expiry := some 0, notFound := some 0 } = (604800000, 60000)
+    ∧ newOptions { expiry := some (-1), notFound := some (-60000) } = (604800000, 60000)
+    ∧ newOptions { expiry := some 1, notFound := some 999 } = (1, 999)
+    ∧ ttlSec 1 0 = 1 ∧ ttlSec 1 1000 = 1 ∧ ttlSec 999 0 = 2 ∧ ttlSec 999 1000 = 1 ∧ ttlSec 1000 500 = 1 ∧ ttlSec 1000 499 = 2
+    ∧ ttlSec 60000 0 = 63 ∧ ttlSec 60000 1000 = 57 ∧ ttlSec 31536000001 1000 = 29959201 := by decide
+
+/-- `no_persistent_key` is not vacuous: with `WithNotFoundExpiry(0)` a read of an absent row leaves the marker
+with the default not-found TTL; had `newOptions` kept the 0 (`{ nf := 0 }`), the marker would be persistent. -/
+example :
+    (run (Cfg.ofOptions { notFound := some 0 }) St.init [.take 7 500 [] false]).cache (0, .p 7) = some ⟨.ph, 60000, .loaded⟩
+    ∧ (run { exp := 20000, nf := 0 } St.init [.take 7 500 [] false]).cache (0, .p 7) = some ⟨.ph, 0, .loaded⟩
+    ∧ (run { exp := 20000, nf := 0 } St.init [.take 7 500 [] false, .ft 1000000000]).cache (0, .p 7) = some ⟨.ph, 0, .loaded⟩ := by
+  refine ⟨by decide, by decide, by decide⟩
 
 example : ttlSec 20000 0 = 21 ∧ ttlSec 20000 1000 = 19 ∧ ttlSec 20000 500 = 20 ∧ ttlSec 1 1000 = 1
     ∧ Spec.ttlLo 20000 = 19 ∧ Spec.ttlHi 20000 = 21 := by decide
